@@ -397,9 +397,20 @@ PROPS = {
         ]
     },
     "C04": {
+        "properties": [
+            "C04",
+            "C04_mysql"
+        ],
         "domains": [
             {
                 "name": "c04",
+                "run_vo": "Model/RunProxy.vo",
+                "n_quick": 60,
+                "n_thorough": 600,
+                "model": True
+            },
+            {
+                "name": "c04my",
                 "run_vo": "Model/RunProxy.vo",
                 "n_quick": 60,
                 "n_thorough": 600,
@@ -410,7 +421,10 @@ PROPS = {
             "in-process rig (harness/vh/pgrig.go): harness ClientSession over net.Pipe, scripted client and fake back end built on pgproto3; the fake back end decodes forwarded statements with the real PostgreSQL parser (pg_query) and implements bytea/text input/output conversion itself",
             "statement analysis (encryptor/postgresql/queryDataEncryptor.go on pg_query trees), bind-parameter handling, text/binary re-encoding (data_encoder.go, types/) are covered by the end-to-end oracle only; the Coq model starts at the abstract statement form",
             "rig keystore answers fs.ErrNotExist for identities without keys, like keystore/filesystem",
-            "not covered: MySQL proxy/encryptor, tokenized / typed (data_type) / masked columns, searchable columns are oracle-only (C09-C11, C19 own them), TLS, censor"
+            "not covered: tokenized / typed (data_type) / masked columns, searchable columns are oracle-only (C09-C11, C19 own them), TLS, censor",
+            "MySQL path (domain c04my, harness/myrig): in-process rig = harness ClientSession over net.Pipe, decryptor/mysql.NewProxyFactory(...).New with both proxy goroutines, scripted client (COM_QUERY, COM_STMT_PREPARE/EXECUTE/CLOSE, with and without CLIENT_DEPRECATE_EOF) and a recording fake MySQL server written from the protocol documentation; the fake server reads forwarded statements with its OWN lexer for MySQL literals (harness/myrig/sql.go, twin of Model/ProxyMysql.v my_read_literal), not with acra's sqlparser",
+            "MySQL statement analysis (encryptor/mysql on sqlparser trees), placeholder mapping, COM_STMT_EXECUTE packet re-encoding and the result row handlers are covered by the end-to-end oracle and the Sess/Read replay on the abstract statement form; the literal coder (dbDataCoder.go + UpdateExpressionValue + SQLVal.Format) is modelled and replayed byte for byte (op MyLit); utf8.Valid / strconv.Atoi are parameters of the model (their answers are part of the replayed op)",
+            "MySQL replay conventions: INSERT .. ON DUPLICATE KEY UPDATE on an existing key = abstract Update, on a fresh key = abstract Insert (its ON DUPLICATE values oracle-only); statements MySQL rejects (tuple length <> column count) = abstract Other; scenarios with NULL parameters or the known-finding shape are oracle-only"
         ],
         "assumptions": [
             "Correct C as an explicit premise; tape/key well-formedness premises of the C01 theorems",
